@@ -101,6 +101,7 @@ type Violation struct {
 	Trace []int64
 	Nondets []NondetRec
 	Events []Event
+	Budget int64
 }
 
 func (m *Machine) site() string {
@@ -299,13 +300,19 @@ func (m *Machine) run(fr *Frame) Value {
 	block := fr.fn.Blocks[0]
 	var prev *ssa.BasicBlock
 	for {
-		if len(block.Preds) > 0 {
+		if prev != nil && len(block.Preds) > 1 {
+			// unwinding assertion: count consecutive back-edge entries of a loop
+			// header; entering the loop afresh (forward edge) resets the count
 			if fr.visits == nil {
 				fr.visits = map[*ssa.BasicBlock]int{}
 			}
-			fr.visits[block]++
-			if fr.visits[block] > m.loopBound {
-				m.end("unwind", "block %d of %s entered more than %d times", block.Index, fr.fn, m.loopBound)
+			if block.Dominates(prev) {
+				fr.visits[block]++
+				if fr.visits[block] > m.loopBound {
+					m.end("unwind", "loop at block %d of %s iterated more than %d times", block.Index, fr.fn, m.loopBound)
+				}
+			} else {
+				fr.visits[block] = 0
 			}
 		}
 		// phis first (simultaneous)
